@@ -20,6 +20,12 @@ use versatiles_core::types::{Blob, TileCoord3, TileStream};
 
 /// number of stalled schedules so far: the first stall may take 20 s to be declared, later ones 2 s;
 /// after 5 the remaining cases are skipped (the run is then a broken correspondence anyway)
+/// set as soon as a released result is observed NOT to leave the operator (delivery is not in
+/// completion order): from then on the controller no longer waits for the tap, the cases still run
+/// to the end quickly and the multiset / pairing / consumer laws are judged; the differing output
+/// sequence shows up as a model disagreement.
+static ORDER_FREE: std::sync::atomic::AtomicBool = std::sync::atomic::AtomicBool::new(false);
+use std::sync::atomic::Ordering::SeqCst;
 static STALLS: std::sync::atomic::AtomicUsize = std::sync::atomic::AtomicUsize::new(0);
 fn wait_limit() -> Duration {
 	if STALLS.load(std::sync::atomic::Ordering::SeqCst) == 0 { Duration::from_secs(20) } else { Duration::from_secs(2) }
@@ -124,6 +130,8 @@ enum Strategy {
 	Last,
 	Rotate,
 	Interleave,
+	/// item 0 is held back until `m` later items have completed
+	HoldFirst(usize),
 	Random(u64),
 }
 
@@ -220,18 +228,33 @@ fn execute(rt: &tokio::runtime::Runtime, op: Op, window: usize, k: Option<usize>
 					Strategy::Last => *inflight.last().unwrap(),
 					Strategy::Rotate => inflight[step % inflight.len()],
 					Strategy::Interleave => if step % 2 == 0 { *inflight.last().unwrap() } else { inflight[0] },
+					Strategy::HoldFirst(m) => if step < *m && inflight.len() > 1 { inflight[1 + step % (inflight.len() - 1)] } else { inflight[0] },
 					Strategy::Random(_) => inflight[rng.below(inflight.len() as u64) as usize],
 				};
 				g.released[c] = true;
 				choices.push(c);
 				gate.item[c].notify_all();
-				// 3. a kept item must come out of the operator before the next release
+				// 3. a kept item must come out of the operator before the next release – unless the operator
+				//    does not deliver in completion order at all (then only the laws are judged, see ORDER_FREE)
 				if keeps[c] {
 					kept += 1;
-					let (g, t) = gate.cv.wait_timeout_while(g, wait_limit(), |s| s.tap.len() < kept && !s.abort).unwrap();
-					if t.timed_out() || g.abort {
-						gate.abort(g);
-						return (choices, Some(format!("step {step}: result of item {c} never left the operator")), false);
+					if !ORDER_FREE.load(SeqCst) {
+						// the tap precedes the refill: a further callback starting without the result at the
+						// tap proves that the operator holds the result back (no timing involved)
+						let refill = step + 1 + window;
+						let can_refill = refill <= len;
+						let (g, t) = gate
+							.cv
+							.wait_timeout_while(g, Duration::from_secs(5), |s| s.tap.len() < kept && !(can_refill && s.n_started >= refill) && !s.abort)
+							.unwrap();
+						if g.abort {
+							gate.abort(g);
+							return (choices, Some(format!("step {step}: aborted")), false);
+						}
+						if g.tap.len() < kept {
+							let _ = t;
+							ORDER_FREE.store(true, SeqCst);
+						}
 					}
 				}
 			}
@@ -362,6 +385,9 @@ fn run_case(cx: &mut Ctx, op: Op, want_window: usize, k: Option<usize>, items: &
 			}
 		)
 	};
+	if ORDER_FREE.load(SeqCst) && !cx.out.notes.iter().any(|n| n.starts_with("order-free")) {
+		cx.out.notes.push("order-free mode: a released result did not leave the operator before later ones (delivery is not in completion order); the controller stopped waiting for the tap, only the multiset/pairing/consumer laws are judged from here on".into());
+	}
 	let reordered = o.choices.windows(2).any(|w| w[0] > w[1]);
 	cx.out.case(&line, &impl_line, reordered);
 	cx.out.count(&format!("op_{}", op.name()));
@@ -456,6 +482,141 @@ fn gen_items(rng: &mut Rng, op: Op, len: usize) -> Vec<(u64, u64)> {
 	items
 }
 
+// ---------------------------------------------------------------- TileConverter::process_stream
+
+fn comp_name(c: &versatiles_core::types::TileCompression) -> &'static str {
+	use versatiles_core::types::TileCompression::*;
+	match c { Uncompressed => "raw", Gzip => "gzip", Brotli => "brotli" }
+}
+fn comp_parse(s: &str) -> versatiles_core::types::TileCompression {
+	use versatiles_core::types::TileCompression::*;
+	match s { "gzip" => Gzip, "brotli" => Brotli, _ => Uncompressed }
+}
+/// independent codecs (flate2 / brotli crates directly)
+fn enc(c: &versatiles_core::types::TileCompression, data: &[u8]) -> Vec<u8> {
+	use std::io::Write;
+	use versatiles_core::types::TileCompression::*;
+	match c {
+		Uncompressed => data.to_vec(),
+		Gzip => { let mut e = flate2::write::GzEncoder::new(Vec::new(), flate2::Compression::default()); e.write_all(data).unwrap(); e.finish().unwrap() }
+		Brotli => { let mut o = Vec::new(); { let mut w = brotli::CompressorWriter::new(&mut o, 4096, 4, 20); w.write_all(data).unwrap(); } o }
+	}
+}
+fn dec(c: &versatiles_core::types::TileCompression, data: &[u8]) -> Option<Vec<u8>> {
+	use std::io::Read;
+	use versatiles_core::types::TileCompression::*;
+	let mut o = Vec::new();
+	match c {
+		Uncompressed => Some(data.to_vec()),
+		Gzip => flate2::read::GzDecoder::new(data).read_to_end(&mut o).ok().map(|_| o),
+		Brotli => brotli::Decompressor::new(data, 4096).read_to_end(&mut o).ok().map(|_| o),
+	}
+}
+
+/// The MAP operator as it is used by the converter: `TileConverter::new_tile_recompressor(src, dst, force)
+/// .process_stream(..)` over streams with one corrupt / mismatched tile among valid ones. Either the
+/// stream fails loudly (panic) or every input has exactly one output.
+/// case: `C14conv <src> <dst> <force> <fault> <n> <j> <seed>`
+fn converter_cases(cx: &mut Ctx, rng: &mut Rng, thorough: bool, replay: Option<&[&str]>) {
+	use versatiles_container::tile_converter::TileConverter;
+	use versatiles_core::types::TileCompression::*;
+	let comps = [Uncompressed, Gzip, Brotli];
+	let faults = ["none", "truncated", "garbage", "empty", "other-codec", "raw-in-compressed"];
+	let mut plan: Vec<(versatiles_core::types::TileCompression, versatiles_core::types::TileCompression, bool, String, usize, usize, u64)> = vec![];
+	if let Some(t) = replay {
+		plan.push((comp_parse(t[1]), comp_parse(t[2]), t[3] == "1", t[4].to_string(), t[5].parse().unwrap(), t[6].parse().unwrap(), t[7].parse().unwrap()));
+	} else {
+		for src in comps {
+			for dst in comps {
+				for force in [false, true] {
+					for fault in faults {
+						for _ in 0..if thorough { 4 } else { 1 } {
+							let n = rng.range(2, if thorough { 300 } else { 60 }) as usize;
+							plan.push((src, dst, force, fault.to_string(), n, rng.below(n as u64) as usize, rng.next() % 1_000_000));
+						}
+					}
+				}
+			}
+		}
+	}
+	for (src, dst, force, fault, n, j, seed) in plan {
+		let mut r = Rng::new(seed);
+		let contents: Vec<Vec<u8>> = (0..n).map(|i| if i % 7 == 3 { vec![] } else { let l = r.below(300) as usize; r.bytes(l) }).collect();
+		let mut inputs: Vec<(TileCoord3, Blob)> = contents.iter().enumerate().map(|(i, c)| (coord_of(i as u64 / 2), Blob::from(enc(&src, c)))).collect();
+		let good = enc(&src, &contents[j]);
+		let bad: Option<Vec<u8>> = match fault.as_str() {
+			"none" => None,
+			"truncated" => Some(good[..good.len() / 2].to_vec()),
+			"garbage" => Some(r.bytes(40)),
+			"empty" => Some(vec![]),
+			"other-codec" => Some(enc(if src == Gzip { &Brotli } else { &Gzip }, &contents[j])),
+			_ => Some(b"plain text that was never compressed".to_vec()),
+		};
+		if let Some(b) = &bad {
+			inputs[j].1 = Blob::from(b.clone());
+		}
+		let conv = TileConverter::new_tile_recompressor(&src, &dst, force).unwrap();
+		let active = !conv.is_empty();
+		let inp = inputs.clone();
+		let rt = cx.rt;
+		let res = catch(move || rt.block_on(async { conv.process_stream(TileStream::from_vec(inp)).collect().await }));
+		let case = format!("C14conv {} {} {} {} {} {} {}", comp_name(&src), comp_name(&dst), force as u8, fault, n, j, seed);
+		cx.out.eval(&case, bad.is_some() && active && src != Uncompressed);
+		cx.out.count("converter_streams");
+		let sig = |kind: &str| json!({"kind": kind, "src": comp_name(&src), "dst": comp_name(&dst), "fault": fault});
+		let detail = |m: &str| json!({"case": case, "message": m});
+		match res {
+			Err(_) => {
+				cx.out.count("converter_stream_failed_loudly");
+				if bad.is_none() || !active {
+					cx.out.oracle(false, "C14 converter: the stream panicked although every tile was valid", sig("map_panic_on_valid"), detail("panic"));
+				} else {
+					cx.out.oracle(true, "", json!(null), json!(null));
+				}
+			}
+			Ok(outv) => {
+				cx.out.count("converter_stream_completed");
+				let mut verdict: Option<(&str, String)> = None;
+				if outv.len() < inputs.len() {
+					verdict = Some(("map_lost_item", format!("process_stream finished normally with {} outputs for {} inputs", outv.len(), inputs.len())));
+				} else if outv.len() > inputs.len() {
+					verdict = Some(("map_extra_item", format!("process_stream finished with {} outputs for {} inputs", outv.len(), inputs.len())));
+				} else {
+					// one output per input, paired with its own coordinate and (for valid tiles) its own content
+					let mut want: Vec<(u64, Option<Vec<u8>>)> = vec![];
+					let mut got: Vec<(u64, Option<Vec<u8>>)> = vec![];
+					let bad_out_ok = bad.is_some();
+					for (i, (c, _)) in inputs.iter().enumerate() {
+						if i == j && bad_out_ok { want.push((id_of(c), None)); } else { want.push((id_of(c), Some(contents[i].clone()))); }
+					}
+					for (c, b) in &outv {
+						let plain = if active { dec(&dst, b.as_slice()) } else { dec(&src, b.as_slice()) };
+						got.push((id_of(c), plain));
+					}
+					// the corrupt tile's output is unconstrained: remove one entry with its coordinate that is not a wanted content
+					let mut w: Vec<(u64, Vec<u8>)> = want.iter().filter_map(|(c, p)| p.clone().map(|p| (*c, p))).collect();
+					let mut g: Vec<(u64, Vec<u8>)> = got.iter().map(|(c, p)| (*c, p.clone().unwrap_or_else(|| b"<undecodable>".to_vec()))).collect();
+					w.sort();
+					g.sort();
+					for x in &w {
+						if let Some(pos) = g.iter().position(|y| y == x) { g.remove(pos); } else {
+							verdict = Some(("map_wrong_pair", format!("no output carries coordinate id {} with its own content", x.0)));
+							break;
+						}
+					}
+					if verdict.is_none() && g.len() != usize::from(bad_out_ok) {
+						verdict = Some(("map_wrong_pair", "surplus outputs".into()));
+					}
+				}
+				match verdict {
+					None => cx.out.oracle(true, "", json!(null), json!(null)),
+					Some((k, m)) => cx.out.oracle(false, &format!("C14 converter {k}: {m}"), sig(k), detail(&m)),
+				}
+			}
+		}
+	}
+}
+
 /// all digit vectors d with d[i] < min(window, len - i): every valid completion order
 fn all_digit_vectors(len: usize, window: usize) -> Vec<Vec<usize>> {
 	let radix: Vec<usize> = (0..len).map(|i| window.min(len - i)).collect();
@@ -477,7 +638,7 @@ fn all_digit_vectors(len: usize, window: usize) -> Vec<Vec<usize>> {
 pub fn run(args: &Args) {
 	quiet_panics();
 	let mut out = Out::new(&args.out);
-	out.rule = "real TileStream::{map_blob_parallel, filter_map_blob_parallel, from_coord_iter_parallel} (+ collect / for_each_buffered k) on a 24-worker tokio runtime with gate-controlled callbacks: the controller releases one started item at a time and the released result must pass a tap before the next release; window = num_cpus::get() varied through thread CPU affinity; ALL completion orders (all digit vectors d[i] < min(window, len-i)) for len ≤ 6 (thorough ≤ 7) at the full window and for small windows, plus reverse/rotate/interleave/seeded-random orders for streams of 10^2..10^4 items; non-trivial = the completion order differs from the submission order; distinct by case text".into();
+	out.rule = "real TileStream::{map_blob_parallel, filter_map_blob_parallel, from_coord_iter_parallel} (+ collect / for_each_buffered k) on a 24-worker tokio runtime with gate-controlled callbacks: the controller releases one started item at a time and the released result must pass a tap before the next release; window = num_cpus::get() varied through thread CPU affinity; ALL completion orders (all digit vectors d[i] < min(window, len-i)) for len ≤ 6 (thorough ≤ 7) at the full window and for small windows, plus reverse/rotate/interleave/seeded-random orders for streams of 10^2..10^4 items, a straggler schedule (first item overtaken by ≥1500 later ones), and TileConverter::new_tile_recompressor(src,dst,force).process_stream for all 18 configurations over streams with one truncated/garbage/empty/other-codec/uncompressed tile among valid ones (loud failure or exactly one output per input); non-trivial = the completion order differs from the submission order; distinct by case text".into();
 	let aff = Affinity::new();
 	// worker threads are created now, with the unrestricted affinity
 	let rt = tokio::runtime::Builder::new_multi_thread().worker_threads(24).enable_all().build().unwrap();
@@ -487,6 +648,10 @@ pub fn run(args: &Args) {
 	if let Some(p) = &args.replay {
 		for line in std::fs::read_to_string(p).unwrap().lines() {
 			let t: Vec<&str> = line.split(' ').collect();
+			if t.len() == 8 && t[0] == "C14conv" {
+				converter_cases(&mut cx, &mut Rng::new(0), false, Some(&t));
+				continue;
+			}
 			if t.len() != 6 || t[0] != "C14" {
 				continue;
 			}
@@ -545,6 +710,15 @@ pub fn run(args: &Args) {
 			}
 		}
 	}
+	// one straggler: the first item is overtaken by 1500 (thorough: also 5000) later ones
+	for op in ops {
+		for (len, hold) in if args.thorough() { vec![(3000usize, 1500usize), (8000, 5000)] } else { vec![(3000, 1500)] } {
+			let items = gen_items(&mut rng, op, len);
+			let k = if op == Op::Map { None } else { Some(100) };
+			run_case(&mut cx, op, full, k, &items, Strategy::HoldFirst(hold));
+		}
+	}
+	converter_cases(&mut cx, &mut rng, args.thorough(), None);
 	// many medium random schedules
 	for _ in 0..args.n(300, 3000) {
 		let op = *rng.pick(&ops);
